@@ -3,6 +3,7 @@ package main
 
 import (
 	"fmt"
+	"math"
 	"os"
 	"sort"
 	"strings"
@@ -37,6 +38,9 @@ func judge(sc tmh.Script, obs *tmh.Obs, x *vsched.Exec) (string, *vsched.Violati
 		}
 		if f.Starts[0] < f.CallAt+f.Delay {
 			return "v", &vsched.Violation{Sig: "early", Detail: fmt.Sprintf("future #%d (delay %v, scheduled at +%v) was started at +%v, before it was due", i, f.Delay, f.CallAt, f.Starts[0]) + ctxt}
+		}
+		if f.Delay > 0 && f.CallRet+f.Delay < f.CallRet {
+			continue // never due
 		}
 		late := f.Starts[0] - (f.CallRet + f.Delay)
 		if f.Delay < 0 {
@@ -86,8 +90,16 @@ func job(sc tmh.Script, cfg vsched.Config) sdrv.Job {
 func expand(letters string, pool int, idle time.Duration, next *int) []tmh.Ev {
 	var evs []tmh.Ev
 	var mine []int
+	var nevers []int
+	defer func() {}()
 	for _, c := range letters {
 		switch c {
+		case 'I':
+			// a future that is never due (maximal duration); it is cancelled at the end of the script and must
+			// not keep anything else from firing on time
+			evs = append(evs, tmh.Ev{K: "call", F: *next, D: time.Duration(math.MaxInt64)})
+			nevers = append(nevers, *next)
+			*next++
 		case 'F':
 			evs = append(evs, tmh.Ev{K: "call", F: *next, D: 10 * idle})
 			mine = append(mine, *next)
@@ -132,6 +144,12 @@ func expand(letters string, pool int, idle time.Duration, next *int) []tmh.Ev {
 			evs = append(evs, tmh.Ev{K: "sleepalign", D: idle, B: idle / 2})
 		}
 	}
+	if len(nevers) > 0 {
+		evs = append(evs, tmh.Ev{K: "sleep", D: idle / 2})
+		for _, f := range nevers {
+			evs = append(evs, tmh.Ev{K: "cancel", F: f})
+		}
+	}
 	return evs
 }
 
@@ -166,6 +184,16 @@ func main() {
 	}
 	idles := []time.Duration{5 * time.Millisecond, 30 * time.Second}
 	alpha := "FNBXGES"
+	// targeted words with a never-due future (the full product with 'I' is in the thorough tier)
+	for _, idle := range idles {
+		for _, pool := range []int{1, 2} {
+			for _, w := range []string{"IN", "NI", "INN", "IFN", "IBN", "NIF", "ISN"} {
+				mk([]string{w}, pool, idle, 1)
+			}
+			mk([]string{"I", "N"}, pool, idle, 1)
+			mk([]string{"IN", "N"}, pool, idle, 1)
+		}
+	}
 	if !run.Thorough() {
 		for _, idle := range idles {
 			for _, pool := range []int{1, 2, 3} {
@@ -192,7 +220,7 @@ func main() {
 	} else {
 		for _, idle := range idles {
 			for _, pool := range []int{1, 2, 3, 10} {
-				for _, w := range words(alpha+"Zb", 4)[1:] {
+				for _, w := range words(alpha+"ZbI", 4)[1:] {
 					mk([]string{w}, pool, idle, 1)
 				}
 				for _, w := range words(alpha, 3)[1:] {
@@ -223,7 +251,7 @@ func main() {
 	}
 	sdrv.Main(run, jobs, sdrv.Options{
 		Budget: budget,
-		Bounds: map[string]any{"events": "F far future (10 x idle timeout), N near (idle/5), B burst of pool+1 equal deadlines, X cancel the oldest pending future of the caller, G idle gap of 3 x idle timeout, Z negative delay", "sequence_length": "<=3 (thorough 4) for one caller; <=2 + <=1 (thorough <=2 + <=2) for two concurrent callers", "pool_limit": "1..3 (thorough also 10)", "idle_timeout": "5ms and 30s", "P": "2 (1 for sequences of length 3 in the quick tier; thorough 2-3)", "clock": "maximal progress: callbacks return at once and CPU is available"},
+		Bounds: map[string]any{"events": "F far future (10 x idle timeout), N near (idle/5), B burst of pool+1 equal deadlines, X cancel the oldest pending future of the caller, G idle gap of 3 x idle timeout, Z negative delay, I a future with the maximal duration (never due; cancelled at the end of the script)", "sequence_length": "<=3 (thorough 4) for one caller; <=2 + <=1 (thorough <=2 + <=2) for two concurrent callers", "pool_limit": "1..3 (thorough also 10)", "idle_timeout": "5ms and 30s", "P": "2 (1 for sequences of length 3 in the quick tier; thorough 2-3)", "clock": "maximal progress: callbacks return at once and CPU is available"},
 		Rule:   "every schedule within the preemption bound of every arrival pattern on the real timeout package (mutex, wake channel, timers, worker spawn are scheduling points; thorough: every statement) with the maximal-progress virtual clock. Oracle: every future that was not cancelled starts exactly once and no later than 1us of virtual time after its fire time; when nothing is pending the package has 0 workers and no goroutine alive, the queue is empty; a Call issued after that quiescence fires again on time (restart); heap indices consistent",
 	})
 }
